@@ -237,7 +237,7 @@ pub fn gen_case(seed: u64, idx: usize) -> Case {
         for c in &cmd {
             a2.push((*c).into());
         }
-        return Case { kind: kind2.into(), args: a2, gitconfig, env: vec![], stdin: Blob::default(), child: Some(ChildSetup { names: vec!["git".into(), "rg".into()], stdout: out.into(), stderr: Blob::default(), stderr_first: false, exit: 0, git_version: "git version 2.45.1".into() }), parent: None };
+        return Case { kind: kind2.into(), args: a2, gitconfig, env: vec![], stdin: Blob::default(), child: Some(ChildSetup { names: vec!["git".into(), "rg".into()], stdout: out.into(), stderr: Blob::default(), stderr_first: false, exit: 0, git_version: "git version 2.45.1".into(), linger_ms: 0 }), parent: None };
     }
     Case { kind: kind.into(), args, gitconfig, env: vec![], stdin: stdin.into(), child: None, parent: None }
 }
